@@ -94,10 +94,6 @@ def oracle(case, mline, iline):
     _, spec, _ = split_model(mline)
     if healthy != "healthy=OK":
         bad.append(("other-connection-affected", "the healthy peer of the same torrent was no longer served: " + healthy))
-    if len(set(d1)) > 1:
-        bad.append(("segmentation-dependent", "state after quiescence differs between segmentations of the same stream"))
-    if len(set(d2)) > 1:
-        bad.append(("segmentation-dependent-responses", "responses / liveness after releasing the writer differ between segmentations"))
     if spec_limit_walk(case) is True and any(d != "closed=1" for d in d1):
         bad.append(("limit-not-enforced", "a length prefix above 2^20 / an extension message above 2^15 bytes or of unknown type "
                                           "did not close the connection"))
@@ -107,6 +103,10 @@ def oracle(case, mline, iline):
             "meta-bitfield-stall" if case.startswith("role=meta") and any("st=SKIP" in d for d in wrong) else "stream-effect-differs-from-decode")
         bad.append((kl, "after quiescence the connection state is not the state the delivered byte stream denotes "
                         "(complete messages left undispatched): got '%s' want '%s'" % (wrong[0], spec)))
+    if len(set(d1)) > 1:
+        bad.append(("segmentation-dependent", "state after quiescence differs between segmentations of the same stream"))
+    if len(set(d2)) > 1:
+        bad.append(("segmentation-dependent-responses", "responses / liveness after releasing the writer differ between segmentations"))
     return bad
 
 
